@@ -20,6 +20,7 @@ func init() {
 		Explanation: "Decided: (R1) every map update / delete on a version vector's map targets a map created in the same function or returned by a function proved fresh-returning (Clone, the constructors) — never the receiver's or a parameter's map — and slices handed in are copied before being sorted/truncated; (R2) the vector's writer and reader agree on the wire and validate against the same cap; " +
 			"(R3, informational) counters loaded from the maps flow only into comparisons, copies and the single +1 of Increment; (R4) that +1 is dominated by the strict test counter < K where K is the bound above which the reader rejects counters, so a successful Increment never produces a vector that cannot be read back. " +
 			"(R5) in Merge, an entry of the other operand that is absent from the result is stored on every path of its iteration (no skip), so the result is an upper bound of both; (R6) the key under which ReadVersionVector stores a counter is the decoded string itself, not a transformation of it — the operations and the writer treat node ids as opaque, so a normalising reader breaks Write∘Read = id and can collapse two entries. " +
+			"(R7) Compare enumerates the stored entries of each of its two operands (itself or through a helper it hands the operand to): an entry only one side holds can carry any counter, explicit zero included, so neither side's entries can be summarised by their number. " +
 			"NOT decided, stated plainly: reflexivity / antisymmetry / transitivity of Compare, commutativity / associativity / idempotence / leastness of Merge, strictness of Increment. These are arithmetic facts over all inputs; deciding them needs execution or a solver, both outside this technique. A mutation of Compare or Merge that keeps R1–R2 intact is NOT detected by this check.",
 		Rules: []Rule{
 			{ID: "C16.R1", Min: 6, Desc: "operands are never modified (ownership of the map)", Fn: c16Ownership},
@@ -28,6 +29,7 @@ func init() {
 			{ID: "C16.R5", Min: 1, Desc: "the join keeps every entry of both operands", Fn: c16MergeKeepsAll},
 			{ID: "C16.R6", Min: 1, Desc: "the reader stores node ids verbatim", Fn: c16VerbatimKeys},
 			{ID: "C16.R4", Min: 1, Desc: "Increment stays within the reader's counter bound", Fn: c16IncrementCap},
+			{ID: "C16.R7", Min: 2, Desc: "Compare enumerates the entries of both operands", Fn: c16CompareEnumerates},
 		},
 	})
 	register(&Property{
@@ -476,6 +478,74 @@ func c16DataIndependence(p *Program, r *Report) {
 	sort.Strings(odd)
 	r.add("counters are only compared, copied and incremented by one", vv.Obj().Pos(), map[bool]string{true: "discharged", false: "violated"}[len(odd) == 0],
 		fmt.Sprintf("informational: %d uint64 operations in the vector's methods; other arithmetic: %v. (This is what would make a finite order-type enumeration by another technique complete; it decides none of the lattice laws.)", n, odd), false)
+}
+
+// c16CompareEnumerates: the pointwise order needs the counter of every entry of both vectors. Entries only the other side
+// holds are found by enumerating that side; their number (len) says nothing about their counters — an explicit zero entry
+// (decoded from the wire) is equal to an absent one.
+func c16CompareEnumerates(p *Program, r *Report) {
+	vv := p.Named("internal/cluster", "VersionVector")
+	if vv == nil {
+		r.Unresolved("VersionVector")
+		return
+	}
+	fn := p.methodNamed(vv, "Compare")
+	if fn == nil || len(fn.Params) < 2 {
+		r.Unresolved("VersionVector.Compare")
+		return
+	}
+	for i, role := range []string{"the receiver", "the other operand"} {
+		ok := p.enumeratesParam(fn, i, 0, map[string]bool{})
+		r.Check(ok, "Compare enumerates the entries of "+role, fn.Pos(), "Compare (or a helper it passes the operand to) ranges over the stored entries of this operand: every entry takes part in the pointwise comparison")
+	}
+}
+
+// enumeratesParam: fn iterates over storage derived from its parameter #idx — a range over a map / an element read of a
+// slice rooted in the parameter — or passes (something derived from) it to a module function that does.
+func (p *Program) enumeratesParam(fn *ssa.Function, idx, depth int, seen map[string]bool) bool {
+	key := fmt.Sprintf("%p/%d", fn, idx)
+	if depth > 3 || seen[key] || idx >= len(fn.Params) || len(fn.Blocks) == 0 {
+		return false
+	}
+	seen[key] = true
+	root := "param:" + fn.Params[idx].Name()
+	from := func(v ssa.Value) bool {
+		for _, o := range p.origins(v) {
+			if strings.HasSuffix(o, root) {
+				return true
+			}
+		}
+		return false
+	}
+	for _, f := range withAnon(fn) {
+		for _, b := range f.Blocks {
+			for _, in := range b.Instrs {
+				switch x := in.(type) {
+				case *ssa.Range:
+					if from(x.X) {
+						return true
+					}
+				case *ssa.IndexAddr:
+					if _, isSl := x.X.Type().Underlying().(*types.Slice); isSl && from(x.X) {
+						if _, isC := x.Index.(*ssa.Const); !isC {
+							return true
+						}
+					}
+				}
+				c := callOf(in)
+				if c == nil || c.StaticCallee() == nil || !p.inModule(c.StaticCallee()) {
+					continue
+				}
+				y := c.StaticCallee()
+				for j, a := range c.Args {
+					if from(a) && p.enumeratesParam(y, j, depth+1, seen) {
+						return true
+					}
+				}
+			}
+		}
+	}
+	return false
 }
 
 // ---- C17 ---------------------------------------------------------------------------------------
